@@ -70,9 +70,24 @@ def c10(tier, seed, replay):
                 "refuted", tier, seed, replay)
 
 
+def _c17_mp(rep, tier, seed):
+    """'for the multiprocessing solver each total is the sum over workers': real worker streams, arrival orders
+    enumerated by TLC, the real parent loop, aggregated statistics judged by spec/MPTrace.tla."""
+    import mp
+    sub = Report("C17", tier, "model_checking")
+    recs, failures = mp.c11_pipeline(sub, tier, seed + 5, jit=False, scale=0.3, synthetic=False)
+    for clause, case in failures:
+        if clause.startswith("C17:"):
+            rep.fail(case, f"{clause} mode={case['mode']} arrival order={case['gets']}")
+    rep.add(states=sub.cov.get("states", 0), transitions=sub.cov.get("transitions", 0),
+            traces_validated_against_impl=sub.cov.get("traces_validated_against_impl", 0))
+    rep.cov["multiprocessing_statistics_runs"] = len(recs)
+
+
 def c17(tier, seed, replay):
     return _run("C17", ("C17:",), "the 13 statistics equal the observed event counts at every pass end, yield and "
-                "return; conservation laws under plain bound consistency", tier, seed, replay)
+                "return; conservation laws under plain bound consistency; multiprocessing totals are sums (max for depth) "
+                "of the workers' final statistics", tier, seed, replay, extra=_c17_mp)
 
 
 def c07(tier, seed, replay):
